@@ -237,7 +237,18 @@ fn run_phase<'a, C: Codec<'a>>(
     // method "ahead": the piece read by the previous "ahead" feed, not given to the codec yet
     let mut held: Option<AnchoredSlice> = None;
     LENT.with(|c| c.set((input.as_ptr() as usize, input.len())));
-    for op in ops.by_ref() {
+    let flush_op = json!({"ev": "feed", "m": "copy", "n": 0});
+    loop {
+        // a piece read ahead is given to the codec (as a feed of its own) before the phase ends
+        let ends = matches!(ops.as_slice().first().map(|o| gets(o, "ev")), Some("finish") | Some("take_iovec"));
+        let op = if ends && held.is_some() {
+            &flush_op
+        } else {
+            match ops.next() {
+                Some(op) => op,
+                None => break,
+            }
+        };
         let ev = gets(op, "ev");
         let mut e = Map::new();
         e.insert("run".into(), json!(run));
@@ -438,10 +449,6 @@ fn run_phase<'a, C: Codec<'a>>(
             "finish" | "take_iovec" => {
                 let take = ev == "take_iovec";
                 let r = guarded(move || {
-                    let mut c = c;
-                    if let Some(prev) = held.take() {
-                        c.feed_held(prev)?;
-                    }
                     let fin = if take { c.take_iovec() } else { c.finish() };
                     fin.map(|iov| {
                         let pending = iov.has_pending_backrefs();
